@@ -13,7 +13,7 @@ import (
 func init() {
 	register(&propDef{
 		ID:          "C08",
-		Explanation: "Equality of the generated programs for all spellings is not decided. Decides three agreement clauses between parser, formatter and generator: R1 decode/encode symmetry — every parser-node field that the parser fills with a decoded value (html.UnescapeString) is re-encoded (html.EscapeString) wherever a formatter method (Write/String of the node) emits it; R2 classifier agreement — over the finite domain {node kinds} × {block element?} × {indented children?}, evaluated from the two type switches: wherever the formatter's block classifier (a forced line break before the node) is true, the generator's inline-or-text classifier (whitespace before the node is rendered) must be false, otherwise formatting inserts a space into the rendered output; R3 field coverage — every field of a parser node type that the generator reads in order to emit code is also read by that node's own formatter methods (a field the formatter drops is lost from the formatted file); R4 content fields (string fields of parser nodes outside Go expressions that the generator reads, directly or through node methods) are written back verbatim by the formatter: never assigned a non-constant value and never passed through a string-transforming strings.* call; R5 every child list taken from a parser node is stripped of whitespace-only nodes before the generator renders it (the formatter adds and removes such nodes freely). R6 the import rewriter that templ fmt runs never inserts an import without its name (no astutil.AddImport; name and path of every Add/DeleteNamedImport come from one import spec, and the splitter reads the spec's alias); R7 a boolean field the parser derives from a sibling string field (quote choice from the attribute value) is derived from that field's final value — no later assignment to the string without recomputing the flag; R9 a flag that records that a construct spans several lines is decided after the whitespace in front of the closing delimiter was consumed; R8 a formatter loop that writes the lines of a Go expression with an indentation prefix also has a path that writes a line unprefixed (continuation lines of raw string literals are part of the string's value). NOT decided: the formatter's whitespace decisions on concrete files, gofmt-level layout of embedded Go.",
+		Explanation: "Equality of the generated programs for all spellings is not decided. Decides three agreement clauses between parser, formatter and generator: R1 decode/encode symmetry — every parser-node field that the parser fills with a decoded value (html.UnescapeString) is re-encoded (html.EscapeString) wherever a formatter method (Write/String of the node) emits it; R2 classifier agreement — over the finite domain {node kinds} × {block element?} × {indented children?}, evaluated from the two type switches: wherever the formatter's block classifier (a forced line break before the node) is true, the generator's inline-or-text classifier (whitespace before the node is rendered) must be false, otherwise formatting inserts a space into the rendered output; R3 field coverage — every field of a parser node type that the generator reads in order to emit code is also read by that node's own formatter methods (a field the formatter drops is lost from the formatted file); R4 content fields (string fields of parser nodes outside Go expressions that the generator reads, directly or through node methods) are written back verbatim by the formatter: never assigned a non-constant value and never passed through a string-transforming strings.* call; R5 every child list taken from a parser node is stripped of whitespace-only nodes before the generator renders it (the formatter adds and removes such nodes freely). R6 the import rewriter that templ fmt runs never inserts an import without its name (no astutil.AddImport; name and path of every Add/DeleteNamedImport come from one import spec, and the splitter reads the spec's alias); R7 a boolean field the parser derives from a sibling string field (quote choice from the attribute value) is derived from that field's final value — no later assignment to the string without recomputing the flag; R9 a flag that records that a construct spans several lines is decided after the whitespace in front of the closing delimiter was consumed; R8 a formatter loop that writes the lines of a Go expression with an indentation prefix also has a path that writes a line unprefixed (continuation lines of raw string literals are part of the string's value). R10 the formatter command parses the text it read and its file readers return what they read (no CRLF/BOM/whitespace normalisation in front of the parser: a CRLF inside a raw Go string or <pre> is part of what is rendered). NOT decided: the formatter's whitespace decisions on concrete files, gofmt-level layout of embedded Go.",
 		Assumptions: []string{"atoms of the classifiers (IsBlockElement, IndentChildren) are independent booleans"},
 		Trusted:     []string{"go/types", "x/tools go/packages"},
 		Run:         runC08,
@@ -96,7 +96,9 @@ func (cl *classifier) eval(kind string, asg map[string]bool) bool {
 }
 
 func runC08(c *Ctx) {
-	c.load("./parser/v2", "./generator", "./cmd/templ/imports")
+	c.load("./parser/v2", "./generator", "./cmd/templ/imports", "./cmd/templ/fmtcmd")
+	parseInputIsTheFileText(c, "C08.R10", "cmd/templ/fmtcmd", "parser/v2")
+	c.floor("C08.R10", 3)
 	goSourceLineLoops(c, "C08.R8")
 	importAliasesKept(c, "C08.R6")
 	derivedFlagsFresh(c, "C08.R7")
